@@ -241,6 +241,10 @@ type recorder struct {
 	maxEnd   int
 	errh     int
 	stopAt   int // the error handler answers false on its stopAt-th call (0: never)
+	// a second simulated caller: when this caller's yieldAt-th listener event arrives the
+	// other caller runs (onYield), then this one resumes
+	yieldAt int
+	onYield func()
 }
 
 func (r *recorder) add(e event) {
@@ -298,6 +302,11 @@ func (r *recorder) shiftedAfterFire() (items, tokens int) {
 }
 
 func (r *recorder) Event(t, flags, off, end int) {
+	if r.onYield != nil && r.n == r.yieldAt {
+		f := r.onYield
+		r.onYield = nil
+		f()
+	}
 	r.ctx.tick('E')
 	r.add(event{'E', t, flags, off, end})
 }
@@ -762,6 +771,50 @@ func (engine) Run(src *sim.Src, log *sim.Log, res *sim.Result) {
 			res.Fail("C29.safety", "stale-state-after-cancel:"+t.Name,
 				"target %s: after a cancelled parse (cancel at tick %d, returned %s) the next, never-cancelled parse with the SAME parser objects returned err=%s panic=%q, %d events (first divergence at %d), value %.60q; a parse with fresh objects returns err=%s, %d events, value %.60q",
 				t.Name, fireAt, errString(err1), errString(err2), pnc2, rec2.n, rec2.diverged, val2, errString(ref.err), ref.n, ref.val)
+		}
+	}
+	// two callers: after the cancelled parses above, caller A starts a never-cancelled parse
+	// and is descheduled inside its listener at a tape-chosen event; caller B then runs a
+	// complete never-cancelled parse with its own parser objects; A resumes. The listener is
+	// the only place where a parse hands control to its caller, so this is the interleaving
+	// of two caller threads that the simulator can decide. Both must match the reference.
+	if t.Events && res.Violation == nil && ref.n > 0 && len(ends) <= 12000 && src.Chance(1, 3) {
+		mk := func() (*simCtx, *recorder) {
+			c := newSimCtx(errCanceled, -1)
+			r := &recorder{ctx: c, ref: rrec.ev, diverged: -1, stopAt: stopAt}
+			if rrec.ev == nil {
+				r.ref = []event{}
+			}
+			c.rec = r
+			return c, r
+		}
+		ctxA, recA := mk()
+		ctxB, recB := mk()
+		recA.yieldAt = src.Draw(ref.n)
+		var valB, pncB string
+		var errB error
+		ranB := false
+		recA.onYield = func() {
+			ranB = true
+			valB, errB, pncB = safeParse(t, ctxB, input, recB)
+		}
+		valA, errA, pncA := safeParse(t, ctxA, input, recA)
+		res.Steps += ctxA.nticks + ctxB.nticks
+		sameA := pncA == "" && recA.diverged < 0 && recA.n == ref.n && valA == ref.val && sameErr(errA, ref.err)
+		sameB := !ranB || pncB == "" && recB.diverged < 0 && recB.n == ref.n && valB == ref.val && sameErr(errB, ref.err)
+		log.Printf("two callers: A descheduled at event %d of %d, B ran=%v; A -> err=%s panic=%q events=%d diverged=%d same=%v; B -> err=%s panic=%q events=%d diverged=%d same=%v",
+			recA.yieldAt, ref.n, ranB, errString(errA), pncA, recA.n, recA.diverged, sameA, errString(errB), pncB, recB.n, recB.diverged, sameB)
+		if ranB {
+			res.Probe("two-callers:interleaved-after-cancelled-parse")
+		}
+		if !sameA || !sameB {
+			who, e, pn, n, dv, v := "A (the descheduled one)", errA, pncA, recA.n, recA.diverged, valA
+			if sameA {
+				who, e, pn, n, dv, v = "B (ran while A was descheduled)", errB, pncB, recB.n, recB.diverged, valB
+			}
+			res.Fail("C29.safety", "interleaved-callers-after-cancel:"+t.Name,
+				"target %s: after cancelled parses in this process, two never-cancelled parses with separate parser objects were interleaved (A descheduled inside its listener at event %d of %d, B run to completion, A resumed); parse %s returned err=%s panic=%q, %d events (first divergence at %d), value %.60q; a parse on its own returns err=%s, %d events, value %.60q",
+				t.Name, recA.yieldAt, ref.n, who, errString(e), pn, n, dv, v, errString(ref.err), ref.n, ref.val)
 		}
 	}
 	sort.Strings(sched)
